@@ -47,14 +47,17 @@ SplitVerdict(sp) ==
    ELSE IF ~(IsB16(sp.secret) /\ \A i \in 1..Len(sp.tape) : IsB16(sp.tape[i])) \/ Len(sp.tape) # sp.k - 1 THEN "harness: malformed split record"
    \* The random source is a byte stream (the tape); how many bytes each request takes is the implementation's business.  The k-1
    \* coefficients are the consecutive 16-byte blocks of the bytes drawn: fewer than 16 (k-1) bytes drawn means that some coefficient
-   \* does not come from the source; more cannot be mapped to coefficients by this model (no statement: machinery failure).
+   \* does not come from the source; when more are drawn the coefficients must still be the first k-1 blocks delivered.
    ELSE IF sp.drawn < 16 * (sp.k - 1) THEN "fewer than 16 (k-1) bytes were drawn from the random source: not every coefficient comes from it"
-   ELSE IF sp.drawn > 16 * (sp.k - 1) THEN "harness: more than 16 (k-1) bytes drawn; the tape model does not say which of them are the coefficients"
    ELSE IF Len(sp.shares) # sp.n \/ \E i \in 1..Len(sp.shares) : sp.shares[i][1] # i \/ ~IsB16(sp.shares[i][2]) THEN "shares are not indexed 1..n with 16-byte values"
    ELSE LET tape == [i \in 1..(sp.k - 1) |-> B(sp.tape[i])]
             sec == B(sp.secret)
         IN IF \E i \in 1..sp.n : B(sp.shares[i][2]) # ShamirShare(tape, sec, i, sp.ssss, F)
-           THEN "share differs from the polynomial value for the drawn coefficients" ELSE "ok"
+           \* more bytes than 16 (k-1) were drawn: harmless if the coefficients are still the first k-1 blocks delivered (checked above);
+           \* otherwise a coefficient is not what the source delivered first (e.g. a zero block drawn again)
+           THEN (IF sp.drawn > 16 * (sp.k - 1) THEN "a coefficient is not the block the random source delivered (more than 16 (k-1) bytes were drawn and the shares do not belong to the first k-1 blocks)"
+                 ELSE "share differs from the polynomial value for the drawn coefficients")
+           ELSE "ok"
 Given(sp, e) == [i \in 1..Len(e.ord) |-> <<sp.shares[e.ord[i]][1], IF e.altpos = i THEN e.altval ELSE sp.shares[e.ord[i]][2]>>]
 CombineVerdict(sp, e) ==
    IF sp.exc # "none" \/ Len(sp.shares) # sp.n \/ \E i \in 1..Len(e.ord) : e.ord[i] \notin 1..sp.n THEN "harness: combine without shares"
